@@ -57,7 +57,11 @@ class Check:
         self.seed = seed
         self.replay = replay
         self.t0 = time.time()
-        self.bdir = os.path.join(BUILD, pid)
+        # runs against a scratch copy (VERIF_REPO) get their own build directory and do not
+        # touch evidence/: they must not collide with a run against /repo itself
+        self.scratch = os.path.realpath(REPO) != "/repo"
+        suffix = ("-" + hashlib.sha1(os.path.realpath(REPO).encode()).hexdigest()[:8]) if self.scratch else ""
+        self.bdir = os.path.join(BUILD, pid + suffix)
         os.makedirs(self.bdir, exist_ok=True)
         os.makedirs(os.path.join(BUILD, "replay"), exist_ok=True)
         os.makedirs(EVID, exist_ok=True)
@@ -464,7 +468,8 @@ class Check:
               "wall_s": round(time.time() - self.t0, 2), "violations": len(self.violations) + (1 if (self.broken and not self.violations) else 0)}
         if not cov["samples"]:
             cov["samples"] = ["(none recorded)"]
-        with open(os.path.join(EVID, self.pid + ".json"), "w") as f:
+        evpath = os.path.join(self.bdir, "evidence.json") if self.scratch else os.path.join(EVID, self.pid + ".json")
+        with open(evpath, "w") as f:
             json.dump(ev, f, indent=1, default=str)
         log(f"[{self.pid}] tier={self.tier} seed={self.seed} obligations={cov['obligations']} "
             f"discharged={cov['discharged']} evaluations={cov['evaluations']} "
